@@ -90,8 +90,11 @@ ASSUMPTIONS = [
     "dispersive coefficient tables use concrete example pole data (the per-pole coefficient formula is a different property); the material -> table-row association, zero padding and the per-cell selection are what is proved",
     "straight-through estimator: x - x + y == y (real arithmetic)",
     "physical-unit design voxels on non-uniform grids (overlap-weight resampling) raise NotImplementedError at placement and are not covered",
+    "an exception raised by the repository code on a feasible path of a valid input counts as a refuted obligation (no-exception-on-valid-input)",
+    "solver budget: after 75 s spent on non-discharged obligations of one task its remaining obligations are skipped and ONE obligation with status unknown is recorded (the task is then never reported as held)",
+    "configuration classes: quick = every tier x kind for one device, 16 ordered device pairs (7 per tier 1/3, 2 for tier 9), 12 dispersive classes; thorough = all 16 ordered pairs per tier + two 3-device scenes",
 ]
-MIN_OBLIGATIONS = {"quick": 150, "thorough": 300}
+MIN_OBLIGATIONS = {"quick": 3500, "thorough": 22000}
 LEVEL_TEXT = "Deductive proof, for all grid shapes, device boxes (incl. overlapping devices), material values, background values and parameter values, of the cell-wise postcondition, frame and history-independence of the real apply_params for every enumerated configuration class (component tier 1/3/9 x device kind continuous/etched/discrete/binary x device pairs), of the voxel expansion out[i]=in[i//g] for symbolic counts, and of the etch-backup clause of the real _init_arrays"
 LEVEL_NOTE = "real arithmetic (no rounding); transform chain abstracted as 'yields rho'; device sharding not modelled; dispersive pole data concrete examples; configuration classes enumerated (listed in coverage.task_keys)"
 
